@@ -18,7 +18,48 @@ func (e *Engine) lemmaObligations(id string) []*Obligation {
 	return res
 }
 
-func (e *Engine) structuralObligations(id string, reps []*FuncReport) []*Obligation { return nil }
+// structuralObligations: progress conditions matched on the SSA, not solver-discharged (labelled structural in the evidence).
+// C11/C12: every blocking channel operation of the connection loops is a select that also waits on the connection's
+// "closed" channel and on a context's Done() channel, so that shutdown can always interrupt it.
+func (e *Engine) structuralObligations(id string, reps []*FuncReport) []*Obligation {
+	var want map[string]bool
+	switch id {
+	case "C11":
+		want = map[string]bool{"p9p.(*conn).serve": true, "p9p.(*conn).read": true, "p9p.(*conn).write": true, "p9p.(*conn).serve$2": true}
+	case "C12":
+		want = map[string]bool{"p9p.(*transport).send": true, "p9p.(*transport).handle$2": true}
+	default:
+		return nil
+	}
+	var res []*Obligation
+	for _, r := range reps {
+		for _, b := range r.Blocking {
+			if !want[b.Func] {
+				continue
+			}
+			hasClosed, hasDone := false, false
+			for _, a := range b.Alts {
+				if strings.Contains(a, "closed") {
+					hasClosed = true
+				}
+				if strings.HasSuffix(a, "Done()") {
+					hasDone = true
+				}
+			}
+			o := &Obligation{Name: b.Func + "/progress@" + b.What + "[" + strings.Join(b.Alts, ",") + "]", Func: b.Func, Kind: "progress", Pos: b.Pos, Props: []string{id}, Structural: true}
+			if hasClosed && hasDone {
+				o.Status = "discharged"
+				o.Solver = "structural"
+			} else {
+				o.Status = "failed"
+				o.Output = "blocking operation at " + b.Pos + " does not also wait on the closed channel and a context's Done(): shutdown cannot interrupt it"
+			}
+			res = append(res, o)
+			e.structCount++
+		}
+	}
+	return res
+}
 
 func (e *Engine) tryReplay(id string, o *Obligation, replayPath string) bool { return false }
 
@@ -60,7 +101,7 @@ func (e *Engine) heapSortFromID(id string) string {
 	switch {
 	case id == allocHeap:
 		so = "(Array Int Bool)"
-	case id == "gh:$iofail", id == lockCount:
+	case id == "gh:$iofail", id == lockCount, id == "gh:$spawned":
 		so = "Int"
 	case id == "gh:$visited":
 		so = "(Array Iface Bool)"
